@@ -255,7 +255,8 @@ class Interp:
 
         def read(v):
             if isinstance(v, jax.core.Literal):
-                return np.asarray(v.val)
+                # weak-typed python scalars become values of the equation's dtype (float32) at run time
+                return np.asarray(v.val, dtype=v.aval.dtype) if hasattr(v.aval, "dtype") else np.asarray(v.val)
             return env[v]
 
         def write(v, val):
